@@ -31,6 +31,45 @@ LIB = (
     "{% macro rec(f, n) %}{{ n }}{% if n > 0 %}{{ f(n) }}{{ rec(f, n - 1) }}{% endif %}{% endmacro %}"
 )
 
+# Macros of the cached library that modify its eval context for the duration of a
+# block which contains an await point (zone() tells the harness when a task is
+# inside), and probes whose output depends on the eval context they are handed:
+# join / replace / xmlattr / urlize with text + Markup operands, a sibling macro
+# call, a harness function reporting eval_ctx.autoescape.
+LIB_EVALCTX = (
+    "{% macro aeon(f, t, a, m) %}{{ zone('autoescape-block') }}{% autoescape true %}{{ a }}"
+    "{{ f(t) }}{{ [a, m]|join(',') }}{{ a }}{% endautoescape %}{{ zone('') }}{% endmacro %}"
+    "{% macro aeoff(f, t, a, m) %}{{ zone('autoescape-block') }}{% autoescape false %}{{ a }}"
+    "{{ f(t) }}{{ a|replace('&', m) }}{{ a }}{% endautoescape %}{{ zone('') }}{% endmacro %}"
+    "{% macro aedyn(f, t, a, flag) %}{{ zone('autoescape-block') }}{% autoescape flag %}{{ a }}"
+    "{{ f(t) }}{{ {'k': a}|xmlattr }}{{ ectx() }}{{ a }}{% endautoescape %}{{ zone('') }}{% endmacro %}"
+    "{% macro aenest(f, t, a) %}{{ zone('autoescape-block') }}{% autoescape true %}{{ a }}"
+    "{% autoescape false %}{{ f(t) }}{{ a }}{% endautoescape %}{{ f(t ~ 'n') }}{{ a|urlize }}"
+    "{% endautoescape %}{{ zone('') }}{% endmacro %}"
+    "{% macro aecall(f, t) %}{{ zone('autoescape-block') }}{% autoescape true %}[{{ caller() }}"
+    "{{ f(t) }}{{ caller() }}]{% endautoescape %}{{ zone('') }}{% endmacro %}"
+    "{% macro sin(a) %}<{{ a }}>{% endmacro %}"
+    "{% macro sense0(a, m) %}J{{ [a, m]|join(',') }}|R{{ a|replace('&', m) }}|X{{ {'k': a}|xmlattr }}"
+    "|U{{ a|urlize }}|E{{ ectx() }}|M{{ sin(a) }}{% endmacro %}"
+    "{% macro sense(f, t, a, m) %}{{ sense0(a, m) }}~{{ f(t) }}~{{ sense0(m, a) }}{% endmacro %}"
+)
+LIB = LIB + LIB_EVALCTX
+
+ALL_LABELS = (
+    "loop", "nested-loop", "namespace", "namespace-bare", "namespace-dict", "import-macro",
+    "import-call-block", "import-macro-namespace", "import-macro-cycler", "autoescape-const",
+    "autoescape-dynamic", "local-macro", "local-call-block", "include", "set-block",
+    "cycler-joiner", "with", "recursive-loop", "async-filters", "loop-filter", "assign",
+    "import-with-context", "import-macro-autoescape", "import-macro-evalctx-probe", "base",
+    "base2", "super")
+
+# labels of fragments that run code of the cached library lib.j2 (whose Context and
+# eval context are shared by every task that imports it)
+LIB_USING_LABELS = frozenset([
+    "import-macro", "import-call-block", "import-macro-namespace", "import-macro-cycler",
+    "namespace-dict", "autoescape-dynamic", "include", "import-macro-autoescape",
+    "import-macro-evalctx-probe"])
+
 # library imported "with context": sees the importing render's variables
 LIBCTX = (
     "{% macro who(t) %}{{ name }}/{{ g(t) }}/{{ name }}{% endmacro %}"
@@ -63,7 +102,9 @@ class FG:
                   self.imp_acc, self.imp_cyc, self.autoescape, self.autoescape_dyn,
                   self.local_macro, self.include, self.setblock, self.cycler, self.with_,
                   self.recursive, self.filters, self.loopfilter, self.assign, self.ctx_import,
-                  self.callblock_local, self.autoescape_dyn, self.namespace_bare]
+                  self.callblock_local, self.autoescape_dyn, self.namespace_bare,
+                  self.imp_autoescape, self.imp_autoescape, self.imp_evalctx_probe,
+                  self.imp_evalctx_probe]
         return r.choice(makers)()
 
     def loop(self):
@@ -130,6 +171,30 @@ class FG:
 
     def imp_cyc(self):
         return ("import-macro-cycler", "{{ lib.cyc(g, xs) }}")
+
+    def imp_autoescape(self):
+        # a macro of the cached library awaits inside an autoescape block
+        k = self.r.choice(["aeon", "aeoff", "aedyn", "aenest", "aecall", "aeon", "aeoff"])
+        if k in ("aeon", "aeoff"):
+            body = "{{ lib." + k + "(g, " + self.t() + ", name, name|safe) }}"
+        elif k == "aedyn":
+            body = "{{ lib.aedyn(g, " + self.t() + ", name, ae) }}{{ lib.aedyn(g, 'd2', name, not ae) }}"
+        elif k == "aenest":
+            body = "{{ lib.aenest(g, " + self.t() + ", name) }}"
+        else:
+            body = ("{% call lib.aecall(g, " + self.t() + ") %}{{ name }}{{ g('cb') }}"
+                    "{{ [name, name|safe]|join('+') }}{% endcall %}")
+        return ("import-macro-autoescape", body + "{{ name }}")
+
+    def imp_evalctx_probe(self):
+        # eval-context sensitive output produced inside the cached library
+        if self.r.random() < 0.5:
+            return ("import-macro-evalctx-probe",
+                    "{{ lib.sense(g, " + self.t() + ", name, name|safe) }}")
+        return ("import-macro-evalctx-probe",
+                "{{ lib.sense0(name, name|safe) }}{{ g(" + self.t() + ") }}"
+                "{{ lib.sense0('<k&' ~ name, '<i>'|safe) }}{{ g(" + self.t() + ") }}"
+                "{{ lib.sense0(name|safe, name) }}")
 
     def autoescape(self):
         v = self.r.choice(["true", "false"])
@@ -209,7 +274,10 @@ def render_frags(frags):
     return SEP.join(lab + LAB + src for lab, src in frags)
 
 
-def gen_case(rng):
+def gen_case(rng, force_evalctx=False):
+    """force_evalctx: main 0 gets a fragment whose imported macro awaits inside an
+    autoescape block, main 1 an eval-context probe inside the same cached library, and
+    tasks 0 / 1 render main 0 / 1."""
     fg = FG(rng)
     tpls = {"lib.j2": LIB, "libctx.j2": LIBCTX}
     for i, s in enumerate(INC):
@@ -222,6 +290,12 @@ def gen_case(rng):
     for mi in range(2):
         nf = rng.randint(1, 3)
         frags = [fg.frag() for _ in range(nf)]
+        if force_evalctx:
+            extra = fg.imp_autoescape() if mi == 0 else fg.imp_evalctx_probe()
+            frags.insert(rng.randint(0, len(frags)), extra)
+            if rng.random() < 0.5:
+                frags.insert(rng.randint(0, len(frags)),
+                             fg.imp_evalctx_probe() if mi == 0 else fg.imp_autoescape())
         body = render_frags(frags)
         head = "{% import 'lib.j2' as lib %}"
         name = "m%d.j2" % mi
@@ -241,7 +315,7 @@ def gen_case(rng):
         n = rng.randint(2, 3)
         xs = [rng.randint(1, 9) for _ in range(n)]
         tasks.append({
-            "main": rng.choice(mains),
+            "main": mains[t] if force_evalctx and t < 2 else rng.choice(mains),
             "name": names[t],
             "xs": xs,
             "ys": [t + 1, t + 4],
@@ -327,6 +401,11 @@ def gen_modlib(rng, max_gates, nested):
         ("{% macro m2(x, y='d') %}<{{ Z.z(x) }}{{ y }}>{% endmacro %}" if nested
          else "{% macro m2(x, y='d') %}<{{ x }}{{ y }}>{% endmacro %}"),
         "{% set v2 = mg('v2') ~ 'v' %}" if gated_v2 else "{% set v2 = 'V2' %}",
+        # eval-context modifying macro (awaits the task's gate inside the block) + probe
+        "{% macro ma(f, a) %}{{ zone('autoescape-block') }}{% autoescape true %}{{ a }}{{ f('ma') }}"
+        "{{ [a, a|safe]|join(',') }}{% endautoescape %}{{ zone('') }}{% endmacro %}"
+        "{% macro ms(a) %}J{{ [a, a|safe]|join(',') }}|R{{ a|replace('&', a|safe) }}|E{{ ectx() }}"
+        "{% endmacro %}",
     ]
     ngates = int(gated_v1) + int(gated_v2)
     slots = [[] for _ in range(len(defs) + 1)]
@@ -349,10 +428,12 @@ def gen_modlib(rng, max_gates, nested):
 MOD_USES = {
     "import": ("{% import 'mlib.j2' as L %}",
                ["{{ L.m1(name) }}", "{{ L.v1 }}", "{{ L.m2(name) }}", "{{ L.v2 }}",
-                "{{ L.m2(1, y=L.v1) }}", "{{ L.v1 is defined }}{{ L.m1 is defined }}"]),
-    "from-import": ("{% from 'mlib.j2' import m1, m2 as mm, v1, v2 %}",
+                "{{ L.m2(1, y=L.v1) }}", "{{ L.v1 is defined }}{{ L.m1 is defined }}",
+                "{{ L.ma(g, name) }}", "{{ L.ms(name) }}"]),
+    "from-import": ("{% from 'mlib.j2' import m1, m2 as mm, v1, v2, ma, ms %}",
                     ["{{ m1(name) }}", "{{ v1 }}", "{{ mm(name) }}", "{{ v2 }}",
-                     "{{ mm(2, y=v2) }}", "{{ v2 is defined }}{{ mm is defined }}"]),
+                     "{{ mm(2, y=v2) }}", "{{ v2 is defined }}{{ mm is defined }}",
+                     "{{ ma(g, name) }}", "{{ ms(name) }}"]),
 }
 
 
